@@ -42,7 +42,7 @@ MANIFEST = {
 def run(run):
     run.explanation = EXPLANATION
     run.undecided_clauses += ["pixel equality with the pasted mosaic; independence of input order for overlapping inputs"]
-    for r, n in (("C09.R1", 1), ("C09.R2", 4), ("C09.R3", 2), ("C09.R4", 3), ("C09.R5", 4), ("C09.R6", 2)):
+    for r, n in (("C09.R1", 1), ("C09.R2", 4), ("C09.R3", 2), ("C09.R4", 3), ("C09.R5", 4), ("C09.R6", 2), ("C09.R7", 4)):
         run.floor(r, n)
     sigs = _signatures(run)
     # the locked read-modify-write itself (C10.R1) is a premise of "undefined pixels never overwrite defined ones
@@ -57,6 +57,18 @@ def run(run):
         o.rule = "C09.R3"
         o.kind = (o.kind or "") and ("update-image:" + o.kind)
         run.obs.append(o)
+    # ... with a lock that really excludes other processes, keyed by the tile, and never removed while tiling is under way
+    # (C10.R2 / R3 / R6), or two workers sharing a deepest-level tile lose one input's pixels
+    def locks(sub2):
+        ev10 = sym.make_evaluator(sub2.project, P, [], no_inline=("tile_path", "read_image", "write_image", "update_image"))
+        ev10.self_class = P + ".PyramidIO"
+        C10._r2_r3(sub2, upd, ev10.run(upd.node), ev10)
+        C10._r6(sub2)
+    common.delegate(run, "C09.R3", "C10", locks, only_rules={"C10.R2", "C10.R3", "C10.R6"}, note="premise: shared tiles are merged under a real per-tile lock")
+    # every input reaches the processor: the loader hands the collection the paths and per-file options it was given
+    # (C20.R4); a dropped input is a hole in the mosaic
+    from . import C20 as c20
+    common.delegate(run, "C09.R7", "C20", c20._r4, only_rules={"C20.R4"}, note="premise: the tiled collection is the list of inputs the user gave")
     _r4_cleanup(run)
     _r5_pixelization(run)
     parity.check(run, "C09.R6", skip_classes=("ToastSampler", "TileMerger", "StudyTiling"))
@@ -127,6 +139,8 @@ def _signature(project, f, kind):
             t = _subst(c[0], m)
             if source in atoms_of(t):
                 continue
+            if _is_protocol(t):
+                continue
             out.append((t, c[1]))
         return tuple(out)
     sig["flip"] = [(_subst(e.term[1][1], m), per_image(e.pc)) for e in flips]
@@ -137,6 +151,19 @@ def _signature(project, f, kind):
     sig["writes"] = [e for e in r.events if e.kind == "call" and e.term[1][0] == "attr" and e.term[1][2] == "write_image"]
     sig["nodes"] = {"flip": flips, "update_image": ups, "update_into": uis}
     return sig, None, r
+
+
+def _is_protocol(t):
+    """A condition about receiving at all -- built only from exception markers of the receive and tests of the done flag."""
+    if not isinstance(t, tuple) or not t:
+        return False
+    if t[0] == "op" and t[1] == "except":
+        return True
+    if t[0] == "call" and t[1][0] == "attr" and t[1][2] == "is_set":
+        return True
+    if t[0] == "op" and t[1] in ("and", "or", "not"):
+        return all(_is_protocol(x) for x in t[2])
+    return False
 
 
 def _signatures(run):
